@@ -748,6 +748,9 @@ EXTRA_EXAMPLES = [
     "def f():\n    \"\"\"multi\n    \nline\"\"\"\n    return 'a\u2028b\x85c'\n",
     "def first(target, *opts): return opts\ndef second(target, **opts): return opts\n",
     "def so(*a, **k): pass\nlam = lambda *a: a\n",
+    # identical nested code objects in different parents ("cousins"), on one line
+    "class A:\n    f = (lambda s: [i for i in s]); g = (lambda t, u: [i for i in t])\n",
+    "x = y in {1e999 - 1e999, 1e999 * 0, 1.5}\n",
     # <=3.9 peephole tuple folding with a constant index >= 256: line entry inside an instruction
     ";".join("x=%d" % (1000 + i) for i in range(260)) + "\ndef f(a=1,\n b=2): pass\n",
     ";".join("x=%d" % (1000 + i) for i in range(260)) + "\ndef f(a=1,\n b=2,\n c=3): pass\ny = (a,\n b)\n",
